@@ -2,6 +2,7 @@ package props
 
 import (
 	"fmt"
+	"strings"
 
 	"github.com/go-kid/ioc/configure"
 	"github.com/go-kid/ioc/configure/binder"
@@ -37,6 +38,26 @@ func c15Reinit(c *core.Ctx) {
 			}
 		}
 		ini := c15Step{Way: "init"}
+		// user-defined loaders of the Ordered and the priority-ordered class next to the built-in
+		// kinds: up to three sources, one Initialize
+		var ul []c15Step
+		for _, d := range []int{0, 5} {
+			for _, k := range []string{"raw", "file", "args", "userO-1", "userO0", "userO1", "userP-1", "userP1"} {
+				ul = append(ul, c15Step{Way: "add", Kind: k, Doc: d})
+			}
+		}
+		for _, a := range ul {
+			for _, b := range ul {
+				if !yield(c15ReinitCase{[]c15Step{a, b, ini}}) {
+					return
+				}
+				for _, d := range ul {
+					if !yield(c15ReinitCase{[]c15Step{a, b, d, ini}}) {
+						return
+					}
+				}
+			}
+		}
 		for _, g1 := range groups {
 			for _, g2 := range groups {
 				ops := append(append(append([]c15Step{}, g1...), ini), append(append([]c15Step{}, g2...), ini)...)
@@ -60,8 +81,8 @@ func c15Reinit(c *core.Ctx) {
 		cfg := configure.NewConfigure()
 		cfg.SetBinder(binder.NewViperBinder("yaml"))
 		type src struct {
-			file bool
-			vals map[string]string
+			cls, ord int // 0 priority-ordered (files: Order 0), 1 ordered, 2 neither (sequenced as added)
+			vals     map[string]string
 		}
 		var eff []src
 		c.S.Programs++
@@ -75,19 +96,29 @@ func c15Reinit(c *core.Ctx) {
 		pan := scen.Protect(func() {
 			for _, op := range cs.Ops {
 				if op.Way == "add" {
-					switch op.Kind {
-					case "raw":
+					cls, ord := 2, 0
+					switch {
+					case op.Kind == "raw":
 						cfg.AddLoaders(loader.NewRawLoader([]byte(c15Docs[op.Doc].yaml)))
-					case "file":
+					case op.Kind == "file":
+						cls = 0
 						cfg.AddLoaders(loader.NewFileLoader(c15Files[op.Doc]))
-					default:
+					case op.Kind == "args":
 						cfg.AddLoaders(loader.NewArgsLoader(c15Docs[op.Doc].args))
+					case strings.HasPrefix(op.Kind, "userO"): // a user-defined loader in the Ordered class
+						cls = 1
+						fmt.Sscan(op.Kind[5:], &ord)
+						cfg.AddLoaders(&scen.LoadO{Part: scen.Part{Nm: op.Kind, O: ord, RT: &scen.RT{}}, Doc: c15Docs[op.Doc].yaml})
+					default: // "userP<k>": a user-defined priority-ordered loader
+						cls = 0
+						fmt.Sscan(op.Kind[5:], &ord)
+						cfg.AddLoaders(&scen.LoadP{Part: scen.Part{Nm: op.Kind, O: ord, RT: &scen.RT{}}, Doc: c15Docs[op.Doc].yaml})
 					}
 					m := map[string]any{}
 					yaml.Unmarshal([]byte(c15Docs[op.Doc].yaml), &m)
 					vals := map[string]string{}
 					c15Flatten("", m, vals)
-					eff = append(eff, src{op.Kind == "file", vals})
+					eff = append(eff, src{cls, ord, vals})
 					continue
 				}
 				round++
@@ -96,20 +127,25 @@ func c15Reinit(c *core.Ctx) {
 					return
 				}
 				for _, p := range c15Paths {
+					// the supplier that is sequenced last wins; suppliers of equal rank inside the two
+					// ordered classes may be sequenced either way
 					adm := map[string]bool{}
-					last := ""
-					for _, e := range eff {
-						if v, ok := e.vals[p]; ok && e.file {
+					best := [3]int{-1, 0, 0}
+					for i, e := range eff {
+						v, ok := e.vals[p]
+						if !ok {
+							continue
+						}
+						k := [3]int{e.cls, e.ord, 0}
+						if e.cls == 2 {
+							k = [3]int{2, 0, i}
+						}
+						switch {
+						case k[0] > best[0] || (k[0] == best[0] && (k[1] > best[1] || (k[1] == best[1] && k[2] > best[2]))):
+							best, adm = k, map[string]bool{v: true}
+						case k == best:
 							adm[v] = true
 						}
-					}
-					for _, e := range eff {
-						if v, ok := e.vals[p]; ok && !e.file {
-							last = v
-						}
-					}
-					if last != "" {
-						adm = map[string]bool{last: true}
 					}
 					got := ""
 					if v := cfg.Get(p); v != nil {
